@@ -20,8 +20,8 @@ use crate::glob_match::unescape_pattern;
 #[path = "__verif_stubs.rs"]
 mod stubs;
 
-const PLEN: usize = 6;
-const NLEN: usize = 8;
+const PLEN: usize = 5;
+const NLEN: usize = 5;
 
 fn is_meta(c: u8) -> bool {
     c == b'*' || c == b'?' || c == b'[' || c == b']'
